@@ -92,7 +92,7 @@ pub fn bfs<M: Model>(m: &M, seeds: Vec<(M::State, Vec<M::Op>)>, max_depth: usize
                         let kn = m.key(&n);
                         if (kn as u64 ^ seed.wrapping_mul(0x9e37_79b9_7f4a_7c15)) % 251 == 0 {
                             replays.fetch_add(1, Ordering::Relaxed);
-                            match m.step(s, &op, hist) {
+                            match crate::report::quietly(|| m.step(s, &op, hist)) {
                                 Some(n2) if m.key(&n2) == kn => {}
                                 _ => {
                                     eprintln!("MACHINERY: non-deterministic transition {op:?} after {hist:?}");
